@@ -50,7 +50,39 @@ fn positions(rest: &[String]) -> i32 {
             a.incremental_eval.phase_value = 24;
             let mut b = g.clone();
             b.incremental_eval.phase_value = 0;
-            (ev, mev, eval::eval(&a).0, eval::eval(&b).0)
+            let (evmg, eveg) = (eval::eval(&a).0, eval::eval(&b).0);
+            // the evaluation is a function of the position: evaluate neighbours that differ in the owner of one pawn (same
+            // squares occupied), then the position again - whatever the evaluation remembers must not show
+            let codes: Vec<i64> = fields["b"].as_array().unwrap().iter().map(|x| x.as_i64().unwrap()).collect();
+            let mut twins: Vec<crate::chess::game::Game> = Vec::new();
+            for (i, c) in codes.iter().enumerate() {
+                if (*c == 1 || *c == 7) && twins.len() < 6 {
+                    let mut t = fields.clone();
+                    let mut tb = codes.clone();
+                    tb[i] = if *c == 1 { 7 } else { 1 };
+                    t.insert("b".into(), json!(tb));
+                    if let Ok(tg) = std::panic::catch_unwind(|| proj::game_from_fields(&Value::Object(t))) {
+                        twins.push(tg);
+                    }
+                }
+            }
+            // in a thread of its own (nothing remembered yet): each twin first, then the position
+            let again = std::thread::scope(|sc| {
+                sc.spawn(|| {
+                    let mut worst = ev;
+                    for t in &twins {
+                        let _ = std::panic::catch_unwind(|| eval::eval(t).0);
+                        let v = eval::eval(&g).0;
+                        if v != ev {
+                            worst = v;
+                        }
+                    }
+                    worst
+                })
+                .join()
+                .unwrap_or(i16::MIN)
+            });
+            (ev, mev, evmg, eveg, again)
         });
         let mut ev = fields;
         ev.insert("t".into(), json!("pos"));
@@ -59,7 +91,8 @@ fn positions(rest: &[String]) -> i32 {
         ev.insert("mstm".into(), mf["stm"].clone());
         ev.insert("phase".into(), json!(g.incremental_eval.phase_value));
         match res {
-            Ok((e, m, a, b)) => {
+            Ok((e, m, a, b, again)) => {
+                ev.insert("evt".into(), json!(again));
                 ev.insert("panic".into(), json!(false));
                 ev.insert("msg".into(), json!(""));
                 ev.insert("ev".into(), json!(e));
@@ -70,7 +103,7 @@ fn positions(rest: &[String]) -> i32 {
             Err(_) => {
                 ev.insert("panic".into(), json!(true));
                 ev.insert("msg".into(), json!(crate::LAST_PANIC.lock().unwrap().replace('\n', " ")));
-                for k in ["ev", "mev", "evmg", "eveg"] {
+                for k in ["ev", "mev", "evmg", "eveg", "evt"] {
                     ev.insert(k.into(), json!(0));
                 }
             }
